@@ -12,11 +12,21 @@ import (
 )
 
 type Env struct {
-	e    *Enc
-	pkg  string
-	vars map[string]Val
-	fr   *Frame // host frame (for loop invariants / cut asserts / ensures)
-	cl   Clause
+	e     *Enc
+	pkg   string
+	vars  map[string]Val
+	fr    *Frame // host frame (for loop invariants / cut asserts / ensures)
+	cl    Clause
+	watch *[]WatchItem
+	bound int
+	inOld bool
+}
+
+// WatchItem: a contract-level subexpression and its SMT term, evaluated in counterexamples.
+type WatchItem struct {
+	Src  string
+	Term Term
+	Sort string
 }
 
 type evalErr struct{ msg string }
@@ -116,6 +126,15 @@ func (e *Enc) evalBool(fr *Frame, x CExpr, cur, old *State, cl Clause) Term {
 	return e.evalBoolEnv(e.hostEnv(fr), x, cur, old, cl)
 }
 
+// evalBoolWatch also returns the contract-level subexpressions for counterexample reporting.
+func (e *Enc) evalBoolWatch(env *Env, x CExpr, cur, old *State, cl Clause) (Term, []WatchItem) {
+	var w []WatchItem
+	env.watch = &w
+	t := e.evalBoolEnv(env, x, cur, old, cl)
+	env.watch = nil
+	return t, w
+}
+
 func (e *Enc) evalBoolEnv(env *Env, x CExpr, cur, old *State, cl Clause) (t Term) {
 	env.cl = cl
 	defer func() {
@@ -149,6 +168,25 @@ var (
 )
 
 func (e *Enc) eval(env *Env, x CExpr, cur, old *State) Val {
+	v := e.eval1(env, x, cur, old)
+	if env.watch != nil && env.bound == 0 && v.Typ != nil && v.Tuple == nil {
+		switch x.(type) {
+		case CIdent, CSel, CCall, CIndex, CUnary:
+			if _, isLog := v.Typ.(*logArrayType); !isLog {
+				src := x.String()
+				if env.inOld {
+					src = "old(" + src + ")"
+				}
+				if b, ok := v.Typ.(*types.Basic); !ok || b.Kind() != types.UntypedNil {
+					*env.watch = append(*env.watch, WatchItem{Src: src, Term: v.T, Sort: e.sortOf(v.Typ)})
+				}
+			}
+		}
+	}
+	return v
+}
+
+func (e *Enc) eval1(env *Env, x CExpr, cur, old *State) Val {
 	switch n := x.(type) {
 	case CInt:
 		return Val{T: n.V, Typ: types.Typ[types.UntypedInt]}
@@ -250,7 +288,9 @@ func (e *Enc) eval(env *Env, x CExpr, cur, old *State) Val {
 		name := "q_" + n.Var
 		saved, had := env.vars[n.Var]
 		env.vars[n.Var] = Val{T: name, Typ: t}
+		env.bound++
 		body := e.eval(env, n.Body, cur, old)
+		env.bound--
 		if had {
 			env.vars[n.Var] = saved
 		} else {
@@ -559,7 +599,11 @@ func (e *Enc) evalCall(env *Env, n CCall, cur, old *State) Val {
 		if len(n.Args) != 1 {
 			e.evalFail(env, "old takes one argument")
 		}
-		return e.eval(env, n.Args[0], old, old)
+		saved := env.inOld
+		env.inOld = true
+		v := e.eval(env, n.Args[0], old, old)
+		env.inOld = saved
+		return v
 	case "len":
 		v := arg(0)
 		return Val{T: e.lenOf(v, cur), Typ: tInt}
@@ -592,6 +636,15 @@ func (e *Enc) evalCall(env *Env, n CCall, cur, old *State) Val {
 		return Val{T: "(str.substr " + arg(0).T + " " + arg(1).T + " " + arg(2).T + ")", Typ: tString}
 	case "replaceAll":
 		return Val{T: "(str.replace_all " + arg(0).T + " " + arg(1).T + " " + arg(2).T + ")", Typ: tString}
+	case "zero":
+		if len(n.Args) != 1 {
+			e.evalFail(env, "zero(T)")
+		}
+		t := e.w.resolveType(exprTypeString(n.Args[0]), env.pkg)
+		if t == nil {
+			e.evalFail(env, "unknown type %s", n.Args[0])
+		}
+		return Val{T: e.sorts.Zero(t), Typ: t}
 	case "typeOf":
 		return Val{T: "(if_typ " + arg(0).T + ")", Typ: tInt}
 	case "typeIs":
